@@ -118,7 +118,7 @@ pub fn eval_cgrfile(c: &CgrFileCase, model: &Model, work: &str, uid: &str) -> Op
         }
     }));
     let out = std::fs::read(&outp).unwrap_or_default();
-    let _ = std::fs::remove_file(&inp);
+    crate::p_file::remove_input(&inp);
     let _ = std::fs::remove_file(&outp);
     let thm = if c.k.is_none() { "KT.batchOutput_eq" } else { "KT.oligoCgr_rows_in_order" };
     if bad {
@@ -239,6 +239,15 @@ pub fn run_cgr_files(kmer: bool, tier: &str, rng: &mut Rng, model: &Model, rep: 
             container,
         };
         run_one(&c, "files", rep);
+    }
+    // a single long record (fewer records than threads) whose length is an exact multiple of 2^16, and one off by one: block-wise
+    // formatting of one record's points must not lose the last block
+    if !kmer {
+        for len in (if tier == "thorough" { vec![131_072usize, 196_608, 131_073] } else { vec![131_072usize] }) {
+            let s = gen::clean_seq(rng, len, gen::Flavor::Uniform);
+            let c = CgrFileCase { recs: vec![s], k: None, size: *rng.pick(&[16usize, 512]), norm: true, threads: *rng.pick(&[2usize, 4]), mem: 4 << 30, container: "fa".into() };
+            run_one(&c, "single-long-record", rep);
+        }
     }
     // many records in one batch with several threads
     {
